@@ -222,7 +222,8 @@ def _ask(R, g, op):
     if q in ("get_formed_bonds", "get_broken_bonds", "get_fleeting_bonds"):
         return sorted(tuple(sorted(x)) for x in getattr(g, q)())
     if q == "active_atoms":
-        return tuple(sorted(g.active_atoms(op.get("layer", 0))))
+        # placeholders inside change descriptors are not atoms (not judged)
+        return tuple(sorted(a for a in g.active_atoms(op.get("layer", 0)) if a is not None))
     raise KeyError(q)
 
 
@@ -449,6 +450,9 @@ def compare_pair(w, g1, m1, g2, m2, tag, props_false="C02", props_true="C01"):
     """oracle comparison of `==` and `hash` for two real graphs with models"""
     exp = _expected_equal(m1, m2)
     cls = f"{model.CLASSNAME[m1.kind]}" + ("" if m1.kind == m2.kind else "/" + model.CLASSNAME[m2.kind])
+    if exp is not None and not (m1.faithful() and m2.faithful()):
+        cls += ":unfaithful-stereo"
+        w.stats["pair:unfaithful-stereo"] += 1
     if exp is None:
         w.stats["pair:oracle-not-applicable"] += 1
         return True
